@@ -221,6 +221,10 @@ def rand_cons_scalar(r, wild=0.15):
             fmt = r.choice(INT_FORMATS if kind == "int" else NUM_FORMATS)
         if r.random() < wild:
             b = dict(r.choice(NUM_BOUND_SETS_QUICK))
+            # an f32 member (`format: float`) takes bounds and boundary values that are exact in single precision only: the
+            # semantics compares exact decimals, the compiled validator f32 values (2147483647.5 IS 2147483648 there)
+            if fmt == "float" and any(abs(float(v)) > 65536 or float(v) * 4 != int(float(v) * 4) for v in b.values()):
+                b = {"minimum": "1", "maximum": "5"}
         else:
             b = {}
             lo = r.randint(-5, 5)
